@@ -27,7 +27,12 @@ const (
 
 // HostConf is the generated feature set of one registry host.
 type HostConf struct {
-	Name             string `json:"name"`
+	Name string `json:"name"`
+	// RateRemain > 0: manifest responses carry RateLimit-Limit / RateLimit-Remaining headers
+	RateRemain int `json:"rate_remain,omitempty"`
+	// User != "": the host wants Basic authentication with these credentials (in the config's creds)
+	User             string `json:"user,omitempty"`
+	Pass             string `json:"pass,omitempty"`
 	TagDelete        bool   `json:"tag_delete"`
 	Referrers        bool   `json:"referrers"`
 	TagPage          int    `json:"tag_page,omitempty"`
@@ -72,8 +77,25 @@ type Stmt struct {
 // Script is one entry of the regbot configuration.
 type Script struct {
 	Name    string `json:"name"`
-	Timeout string `json:"timeout,omitempty"` // "" or a Go duration (always far above any run time)
+	Timeout string `json:"timeout,omitempty"` // "" or a Go duration ("1ms": expired before / while the script runs)
 	Stmts   []Stmt `json:"stmts"`
+	// Kind "" = statements with markers; "empty" = the empty script; "badsyntax" =
+	// a text that does not parse (the script never starts; the others must)
+	Kind string `json:"kind,omitempty"`
+}
+
+// ConfOpts are dimensions of the regbot configuration file / command line that
+// do not matter to `once` semantically but are ways the tool is really invoked.
+type ConfOpts struct {
+	LoadDockerConf bool   `json:"load_docker_conf,omitempty"` // skipDockerConfig omitted (HOME is an empty scratch dir)
+	UserAgent      string `json:"user_agent,omitempty"`
+	BlobLimit      int64  `json:"blob_limit,omitempty"`
+	Sched          int    `json:"sched,omitempty"` // 1: defaults.interval + script interval, 2: defaults.schedule + script schedule (ignored by once)
+	NoVersion      bool   `json:"no_version,omitempty"`
+	XExt           bool   `json:"x_ext,omitempty"`       // an x-* user extension with a yaml anchor
+	CredExtras     bool   `json:"cred_extras,omitempty"` // repoAuth, blobChunk, blobMax, priority on the creds
+	ArgStyle       int    `json:"arg_style,omitempty"`   // order / spelling of the command line flags
+	Stdin          bool   `json:"stdin,omitempty"`       // -c - (configuration on standard input)
 }
 
 // Case is the generated unit: a world (State), 1-4 scripts and the regbot
@@ -90,6 +112,10 @@ type Case struct {
 	Places     []Place         `json:"places"`
 	Scripts    []Script        `json:"scripts"`
 	ReadOnly   bool            `json:"read_only"` // no script calls a mutating binding -> differential clause applies
+	Conf       ConfOpts        `json:"conf"`
+	// CancelAt: the harness cancels the command context (what SIGINT does) when
+	// statement CancelAt[1] of script CancelAt[0] starts. nil = never.
+	CancelAt []int `json:"cancel_at,omitempty"`
 }
 
 // Prelude is put at the top of every script: j renders a listing
@@ -122,6 +148,12 @@ func ProbeRepo(si, k int) string { return fmt.Sprintf("s%d/k%d", si, k) }
 // boundary probe (a tag listing on ProbeHost, which the harness observes
 // synchronously) and the statement in its own block; finally the end marker.
 func (c Case) Render(si int, root string) string {
+	switch c.Scripts[si].Kind {
+	case "empty":
+		return ""
+	case "badsyntax":
+		return Prelude + "log(\"C19 never\"\nthis is not lua ((\n"
+	}
 	var sb strings.Builder
 	sb.WriteString(Prelude)
 	for k, st := range c.Scripts[si].Stmts {
